@@ -21,22 +21,26 @@
 (* is a proof for all 6 * (4^31 - 1) / 3 cell ids.                         *)
 (*                                                                         *)
 (*                                                                         *)
-(* SMT friendliness: x % lsb is linear only if lsb is a literal, so every  *)
-(* law is the conjunction over the 31 literal levels c of                  *)
-(*   lev = c => Body(4^(30 - c))      (operators Every / Some below);      *)
-(* the laws about two levels (id and oid / ancestor level) take the level  *)
-(* of id from the constant Lev (0..30; Lev = 31 means "any level" and is   *)
-(* used with the one-level laws only) and range over the other level.      *)
-(*   apalache-mc check --config=<Lev> --init=IndInit --inv=<Law> --length=0 *)
-(*   apalache-mc check --config=<Lev> --init=Init    --inv=IndInv --length=0 *)
-(*   apalache-mc check --config=<Lev> --init=IndInit --inv=IndInv --length=1 *)
+(* SMT friendliness: x % lsb is linear only if lsb is a literal (runs with *)
+(* a symbolic level - a table lookup or a 31-way case split - stall in Z3  *)
+(* on most laws), so the levels are the constants Lev (level of id) and    *)
+(* OLev (level of oid; also the ancestor level when OLev <= Lev and the    *)
+(* descendant level when OLev >= Lev), instantiated by the cfg file of     *)
+(* each run; 4^(30 - Lev) is folded to a literal by Apalache.  The id, the *)
+(* child index and oid stay arbitrary (unbounded SMT integers).            *)
+(*   base:  apalache-mc check --config=<0,0>  --init=Init    --inv=IndInv --length=0 *)
+(*   step + one-level laws, for each Lev:                                  *)
+(*          apalache-mc check --config=<Lev,Lev> --init=IndInit --inv=IndInv,OneLevelLaws --length=1 *)
+(*   two-level laws, for each pair:                                        *)
+(*          apalache-mc check --config=<Lev,OLev> --init=IndInit --inv=TwoLevelLaws --length=0 *)
 (***************************************************************************)
 EXTENDS Integers
 
-CONSTANT
-    \* the level of `id` in this run (0..30), or 31: any level
+CONSTANTS
     \* @type: Int;
-    Lev
+    Lev,
+    \* @type: Int;
+    OLev
 
 VARIABLES
     \* @type: Int;
@@ -46,40 +50,33 @@ VARIABLES
     \* @type: Int;
     k,
     \* @type: Int;
-    pl,
-    \* @type: Int;
     oid,
-    \* @type: Int;
-    olev
+    \* TRUE after a move (the laws are stated for the arbitrary initial state)
+    \* @type: Bool;
+    moved
 
 MaxLevel == 30
 NumFaces == 6
 P61 == 2^61
 P64 == 2^64
-\* lsbForLevel(level) = 1 << 2*(MaxLevel-level); c is always a literal
-Lsb(c) == 4^(30 - c)
-
-Every(P(_)) ==
-    /\ P(0) /\ P(1) /\ P(2) /\ P(3) /\ P(4) /\ P(5) /\ P(6) /\ P(7) /\ P(8) /\ P(9) /\ P(10)
-    /\ P(11) /\ P(12) /\ P(13) /\ P(14) /\ P(15) /\ P(16) /\ P(17) /\ P(18) /\ P(19) /\ P(20)
-    /\ P(21) /\ P(22) /\ P(23) /\ P(24) /\ P(25) /\ P(26) /\ P(27) /\ P(28) /\ P(29) /\ P(30)
-Some(P(_)) ==
-    \/ P(0) \/ P(1) \/ P(2) \/ P(3) \/ P(4) \/ P(5) \/ P(6) \/ P(7) \/ P(8) \/ P(9) \/ P(10)
-    \/ P(11) \/ P(12) \/ P(13) \/ P(14) \/ P(15) \/ P(16) \/ P(17) \/ P(18) \/ P(19) \/ P(20)
-    \/ P(21) \/ P(22) \/ P(23) \/ P(24) \/ P(25) \/ P(26) \/ P(27) \/ P(28) \/ P(29) \/ P(30)
+\* lsbForLevel(level) = 1 << 2*(MaxLevel-level), for the literal levels of this run
+LSB == 4^(30 - Lev)
+OLSB == 4^(30 - OLev)
+ChildLSB == IF Lev < 30 THEN LSB \div 4 ELSE 1            \* lsb of level Lev + 1 (unused at level 30)
+ParentLSB == IF Lev > 0 THEN 4 * LSB ELSE LSB            \* lsb of level Lev - 1 (unused at level 0)
 
 ClearBelow(x, p) == x - (x % p)                          \* x & -p
 BitSet(x, p) == (x \div p) % 2 = 1                       \* x & p # 0
 OrBit(x, p) == IF BitSet(x, p) THEN x ELSE x + p         \* x | p
 
-\* ---- validity: Face() < 6 and the lowest set bit is at an even position (lsb & 0x1555..5 # 0)
-HasLevel(x, c) == x % (2 * Lsb(c)) = Lsb(c)
-Valid(x, l) == x >= 0 /\ x \div P61 < NumFaces /\ Some(LAMBDA c : l = c /\ HasLevel(x, c))
+\* ---- validity: Face() < 6 and the lowest set bit is at an even position (lsb & 0x1555..5 # 0);
+\* a valid id of the level with lsb L is an odd multiple of L below 6 * 2^61
+Valid(x, L) == x >= 0 /\ x \div P61 < NumFaces /\ x % (2 * L) = L
 
 \* ---- s2/cellid.go, with L = lsb() of the receiver and PL = lsbForLevel(level argument)
 Face(x) == x \div P61
 Pos(x) == x % P61
-CellIDFromFace(f) == f * P61 + Lsb(0)
+CellIDFromFace(f) == f * P61 + 4^30
 RangeMin(x, L) == x - (L - 1)
 RangeMax(x, L) == x + (L - 1)
 Parent(x, PL) == OrBit(ClearBelow(x, PL), PL)                            \* (ci & -lsb) | lsb
@@ -95,128 +92,121 @@ PrevId(x, L) == x - 2 * L
 Contains(x, L, y) == RangeMin(x, L) <= y /\ y <= RangeMax(x, L)
 Intersects(x, Lx, y, Ly) == RangeMin(y, Ly) <= RangeMax(x, Lx) /\ RangeMax(y, Ly) >= RangeMin(x, Lx)
 IsLeaf(x) == x % 2 = 1
-IsFace(x) == x % Lsb(0) = 0                                              \* ci & (lsbForLevel(0)-1) == 0
+IsFace(x) == x % (4^30) = 0                                              \* ci & (lsbForLevel(0)-1) == 0
 
-\* ---- the inductive invariant and its restriction to the level of one run
+\* ---- the inductive invariant: id is a valid id of level lev, lev one of the levels of this run
+\* (one implication per level so that every modulus is a literal)
+AtStart == lev = Lev /\ ~moved
+\* satisfiability witness: this "invariant" must be refuted, i.e. IndInit has a model (the laws are not vacuous)
+NotStart == ~AtStart
 IndInv ==
-    /\ lev \in 0..30 /\ olev \in 0..30
-    /\ Valid(id, lev) /\ Valid(oid, olev)
-    /\ k \in 0..3 /\ pl \in 0..30 /\ pl <= lev
+    /\ lev \in {Lev, Lev + 1, Lev - 1, OLev} /\ lev \in 0..30
+    /\ (lev = Lev => Valid(id, LSB))
+    /\ (lev = Lev + 1 => Valid(id, ChildLSB))
+    /\ (lev = Lev - 1 => Valid(id, ParentLSB))
+    /\ (lev = OLev => Valid(id, OLSB))
+    /\ Valid(oid, OLSB)
+    /\ k \in 0..3
+\* an arbitrary valid id of level Lev, an arbitrary valid id of level OLev, an arbitrary child index
 IndInit ==
-    /\ id \in Int /\ lev \in Int /\ k \in Int /\ pl \in Int /\ oid \in Int /\ olev \in Int
-    /\ (Lev <= 30 => lev = Lev)
+    /\ id \in Int /\ lev = Lev /\ k \in Int /\ oid \in Int /\ moved = FALSE
     /\ IndInv
-\* the face cells
+\* the face cells (Lev = OLev = 0)
 Init ==
     /\ \E f \in 0..5 : id = CellIDFromFace(f)
-    /\ lev = 0 /\ k \in 0..3 /\ pl = 0
+    /\ lev = 0 /\ k \in 0..3 /\ moved = FALSE
     /\ \E f \in 0..5 : oid = CellIDFromFace(f)
-    /\ olev = 0
-\* the moves (c = literal level of id); the auxiliary components are arbitrary again
-Aux == k' \in 0..3 /\ pl' \in 0..lev' /\ oid' = oid /\ olev' = olev
-MoveAt(c) ==
-    /\ lev = c
-    /\ \/ c < 30 /\ id' = Child(id, Lsb(c), k) /\ lev' = c + 1 /\ Aux
-       \/ c > 0 /\ id' = ImmediateParent(id, Lsb(c)) /\ lev' = c - 1 /\ Aux
-       \/ NextId(id, Lsb(c)) < NumFaces * P61 /\ id' = NextId(id, Lsb(c)) /\ lev' = c /\ Aux
-       \/ PrevId(id, Lsb(c)) >= 0 /\ id' = PrevId(id, Lsb(c)) /\ lev' = c /\ Aux
-       \/ Some(LAMBDA a : a <= c /\ pl = a /\ id' = Parent(id, Lsb(a)) /\ lev' = a /\ Aux)
-Next == Some(MoveAt)
+\* the moves from level Lev: a child, the parent, the ancestor of level OLev, next, previous
+Aux == k' \in 0..3 /\ oid' = oid /\ moved' = TRUE
+Next ==
+    /\ lev = Lev
+    /\ \/ Lev < 30 /\ id' = Child(id, LSB, k) /\ lev' = Lev + 1 /\ Aux
+       \/ Lev > 0 /\ id' = ImmediateParent(id, LSB) /\ lev' = Lev - 1 /\ Aux
+       \/ OLev <= Lev /\ id' = Parent(id, OLSB) /\ lev' = OLev /\ Aux
+       \/ NextId(id, LSB) < NumFaces * P61 /\ id' = NextId(id, LSB) /\ lev' = Lev /\ Aux
+       \/ PrevId(id, LSB) >= 0 /\ id' = PrevId(id, LSB) /\ lev' = Lev /\ Aux
 
 (***************************************************************************)
-(* One-level obligations (state invariants under IndInit, any Lev).        *)
+(* One-level obligations (about id at level Lev).                          *)
 (***************************************************************************)
-\* lsb arithmetic: L divides id with an odd quotient (so L = id & -id), no other level fits,
-\* the id is below 2^64, its position has the documented layout, IsLeaf/IsFace agree with the level
-LsbAt(c) ==
-    lev = c =>
-        LET L == Lsb(c) IN
-        /\ id % L = 0 /\ (id \div L) % 2 = 1
-        /\ Every(LAMBDA a : HasLevel(id, a) => a = c)
-        /\ id < P64 /\ id >= L
-        /\ Pos(id) % (2 * L) = L /\ id = Face(id) * P61 + Pos(id)
-        /\ (IsLeaf(id) <=> c = 30) /\ (IsFace(id) <=> c = 0)
-LsbLaw == Every(LsbAt)
-\* leaf range: both ends are leaves of the same face, the id is the middle, L leaf ids inside
-RangeAt(c) ==
-    lev = c =>
-        LET L == Lsb(c) IN
-        /\ Valid(RangeMin(id, L), 30) /\ Valid(RangeMax(id, L), 30)
-        /\ Face(RangeMin(id, L)) = Face(id) /\ Face(RangeMax(id, L)) = Face(id)
-        /\ RangeMin(id, L) <= id /\ id <= RangeMax(id, L)
-        /\ RangeMax(id, L) - RangeMin(id, L) = 2 * (L - 1)
-        /\ RangeMin(id, L) = ChildBeginAtLevel(id, L, Lsb(30))
-        /\ RangeMax(id, L) + 2 = ChildEndAtLevel(id, L, Lsb(30))
-RangeLaw == Every(RangeAt)
+\* lsb arithmetic: LSB divides id with an odd quotient (so LSB = id & -id: the largest power of two
+\* dividing id), the id is below 2^64, its position has the documented layout, IsLeaf/IsFace agree
+LsbLaw ==
+    AtStart =>
+        /\ id % LSB = 0 /\ (id \div LSB) % 2 = 1
+        /\ id < P64 /\ id >= LSB
+        /\ Pos(id) % (2 * LSB) = LSB /\ id = Face(id) * P61 + Pos(id)
+        /\ (IsLeaf(id) <=> Lev = 30) /\ (IsFace(id) <=> Lev = 0)
+\* leaf range: both ends are leaves of the same face, the id is the middle, LSB leaf ids inside
+RangeLaw ==
+    AtStart =>
+        /\ Valid(RangeMin(id, LSB), 1) /\ Valid(RangeMax(id, LSB), 1)
+        /\ Face(RangeMin(id, LSB)) = Face(id) /\ Face(RangeMax(id, LSB)) = Face(id)
+        /\ RangeMin(id, LSB) <= id /\ id <= RangeMax(id, LSB)
+        /\ RangeMax(id, LSB) - RangeMin(id, LSB) = 2 * (LSB - 1)
+        /\ RangeMin(id, LSB) = ChildBeginAtLevel(id, LSB, 1)
+        /\ RangeMax(id, LSB) + 2 = ChildEndAtLevel(id, LSB, 1)
 \* children: valid cells of the next level that partition [RangeMin, RangeMax] in order
-ChildAt(c) ==
-    (lev = c /\ c < 30) =>
-        LET L == Lsb(c)  CL == Lsb(c + 1)  ch == Child(id, L, k) IN
-        /\ CL = L \div 4
-        /\ Valid(ch, c + 1)
-        /\ Parent(ch, L) = id /\ ImmediateParent(ch, CL) = id
-        /\ RangeMin(id, L) <= RangeMin(ch, CL) /\ RangeMax(ch, CL) <= RangeMax(id, L)
-        /\ RangeMin(Child(id, L, 0), CL) = RangeMin(id, L)
-        /\ RangeMax(Child(id, L, 3), CL) = RangeMax(id, L)
-        /\ (k < 3 => RangeMax(ch, CL) + 2 = RangeMin(Child(id, L, k + 1), CL))
-        /\ (k < 3 => NextId(ch, CL) = Child(id, L, k + 1))
-        /\ ChildBegin(id, L) = Child(id, L, 0)
-        /\ ChildEnd(id, L) = NextId(Child(id, L, 3), CL)
-        /\ ChildBegin(id, L) = ChildBeginAtLevel(id, L, CL)
-        /\ ChildEnd(id, L) = ChildEndAtLevel(id, L, CL)
-        /\ Contains(id, L, ch) /\ ~Contains(ch, CL, id)
-        /\ ch < P64 /\ ChildEnd(id, L) < P64
-ChildLaw == Every(ChildAt)
+ChildLaw ==
+    (AtStart /\ Lev < 30) =>
+        LET ch == Child(id, LSB, k) IN
+        /\ Valid(ch, ChildLSB)
+        /\ Parent(ch, LSB) = id /\ ImmediateParent(ch, ChildLSB) = id
+        /\ RangeMin(id, LSB) <= RangeMin(ch, ChildLSB) /\ RangeMax(ch, ChildLSB) <= RangeMax(id, LSB)
+        /\ RangeMin(Child(id, LSB, 0), ChildLSB) = RangeMin(id, LSB)
+        /\ RangeMax(Child(id, LSB, 3), ChildLSB) = RangeMax(id, LSB)
+        /\ (k < 3 => RangeMax(ch, ChildLSB) + 2 = RangeMin(Child(id, LSB, k + 1), ChildLSB))
+        /\ (k < 3 => NextId(ch, ChildLSB) = Child(id, LSB, k + 1))
+        /\ ChildBegin(id, LSB) = Child(id, LSB, 0)
+        /\ ChildEnd(id, LSB) = NextId(Child(id, LSB, 3), ChildLSB)
+        /\ ChildBegin(id, LSB) = ChildBeginAtLevel(id, LSB, ChildLSB)
+        /\ ChildEnd(id, LSB) = ChildEndAtLevel(id, LSB, ChildLSB)
+        /\ Contains(id, LSB, ch) /\ ~Contains(ch, ChildLSB, id)
+        /\ ch < P64 /\ ChildEnd(id, LSB) < P64
 \* moving along the curve at one level
-NextAt(c) ==
-    lev = c =>
-        LET L == Lsb(c) IN
-        /\ RangeMin(NextId(id, L), L) = RangeMax(id, L) + 2
-        /\ RangeMax(PrevId(id, L), L) + 2 = RangeMin(id, L)
-        /\ (NextId(id, L) < NumFaces * P61 => Valid(NextId(id, L), c))
-        /\ (PrevId(id, L) >= 0 => Valid(PrevId(id, L), c))
-        /\ NextId(id, L) < P64
-NextLaw == Every(NextAt)
+NextLaw ==
+    AtStart =>
+        /\ RangeMin(NextId(id, LSB), LSB) = RangeMax(id, LSB) + 2
+        /\ RangeMax(PrevId(id, LSB), LSB) + 2 = RangeMin(id, LSB)
+        /\ (NextId(id, LSB) < NumFaces * P61 => Valid(NextId(id, LSB), LSB))
+        /\ (PrevId(id, LSB) >= 0 => Valid(PrevId(id, LSB), LSB))
+        /\ NextId(id, LSB) < P64
 OneLevelLaws == LsbLaw /\ RangeLaw /\ ChildLaw /\ NextLaw
 
 (***************************************************************************)
-(* Two-level obligations: the level of id is the constant Lev (0..30), the *)
-(* other level (pl, olev) ranges over all literal levels.                  *)
+(* Two-level obligations (id at level Lev, the other level is OLev).       *)
 (***************************************************************************)
-\* ancestors: Parent(level) is the valid cell of that level whose range contains the id's range
-ParentAt(a) ==
-    (pl = a /\ a <= Lev) =>
-        LET L == Lsb(Lev)  PL == Lsb(a)  p == Parent(id, PL) IN
-        /\ Valid(p, a)
-        /\ RangeMin(p, PL) <= RangeMin(id, L) /\ RangeMax(id, L) <= RangeMax(p, PL)
-        /\ Contains(p, PL, id)
-        /\ (a = Lev => p = id)
-        /\ (a + 1 = Lev => ImmediateParent(id, L) = p)
+\* the level of a valid id is unique: no id is valid at two levels
+LevelUniqueLaw == (AtStart /\ OLev # Lev) => ~Valid(id, OLSB)
+\* ancestors: Parent(OLev) is the valid cell of that level whose range contains the id's range
+ParentLaw ==
+    (AtStart /\ OLev <= Lev) =>
+        LET p == Parent(id, OLSB) IN
+        /\ Valid(p, OLSB)
+        /\ RangeMin(p, OLSB) <= RangeMin(id, LSB) /\ RangeMax(id, LSB) <= RangeMax(p, OLSB)
+        /\ Contains(p, OLSB, id)
+        /\ (OLev = Lev => p = id)
+        /\ (OLev + 1 = Lev => ImmediateParent(id, LSB) = p)
         /\ Face(p) = Face(id)
-        /\ (a < Lev => \E j \in 0..3 : Contains(Child(p, PL, j), PL \div 4, id))
-ParentLaw == Every(ParentAt)
-\* ChildBeginAtLevel / ChildEndAtLevel for a level b >= Lev (olev is reused as that level)
-LevelRangeAt(b) ==
-    (olev = b /\ b >= Lev) =>
-        LET L == Lsb(Lev)  BL == Lsb(b)
-            first == ChildBeginAtLevel(id, L, BL)  end == ChildEndAtLevel(id, L, BL) IN
-        /\ Valid(first, b) /\ RangeMin(first, BL) = RangeMin(id, L)
-        /\ end - first = 2 * L
-        /\ RangeMax(PrevId(end, BL), BL) = RangeMax(id, L)
-        /\ Parent(first, L) = id /\ Parent(PrevId(end, BL), L) = id
-LevelRangeLaw == Every(LevelRangeAt)
+        /\ (OLev < Lev => \E j \in 0..3 : Contains(Child(p, OLSB, j), OLSB \div 4, id))
+\* ChildBeginAtLevel / ChildEndAtLevel for the level OLev >= Lev
+LevelRangeLaw ==
+    (AtStart /\ OLev >= Lev) =>
+        LET first == ChildBeginAtLevel(id, LSB, OLSB)  end == ChildEndAtLevel(id, LSB, OLSB) IN
+        /\ Valid(first, OLSB) /\ RangeMin(first, OLSB) = RangeMin(id, LSB)
+        /\ end - first = 2 * LSB
+        /\ RangeMax(PrevId(end, OLSB), OLSB) = RangeMax(id, LSB)
+        /\ Parent(first, LSB) = id /\ Parent(PrevId(end, OLSB), LSB) = id
 \* Contains <=> inclusion of leaf ranges <=> "is the ancestor at its level"; cells are nested or disjoint
-ContainsAt(b) ==
-    olev = b =>
-        LET L == Lsb(Lev)  OL == Lsb(b)
-            c1 == Contains(id, L, oid)
-            incl == RangeMin(id, L) <= RangeMin(oid, OL) /\ RangeMax(oid, OL) <= RangeMax(id, L)
-        IN  /\ c1 <=> incl
-            /\ c1 <=> (b >= Lev /\ Parent(oid, L) = id)
-            /\ Intersects(id, L, oid, OL) <=> (Contains(id, L, oid) \/ Contains(oid, OL, id))
-            /\ Intersects(id, L, oid, OL) <=> Intersects(oid, OL, id, L)
-            /\ (Contains(id, L, oid) /\ Contains(oid, OL, id)) => id = oid
-            /\ (id < oid /\ ~Intersects(id, L, oid, OL)) => RangeMax(id, L) < RangeMin(oid, OL)
-ContainsLaw == Every(ContainsAt)
-TwoLevelLaws == ParentLaw /\ LevelRangeLaw /\ ContainsLaw
+\* (separate implications: Apalache checks every top-level conjunct with its own SMT query)
+InclLaw ==
+    AtStart => (Contains(id, LSB, oid) <=>
+                  (RangeMin(id, LSB) <= RangeMin(oid, OLSB) /\ RangeMax(oid, OLSB) <= RangeMax(id, LSB)))
+AncestorLaw == AtStart => (Contains(id, LSB, oid) <=> (OLev >= Lev /\ Parent(oid, LSB) = id))
+NestedLaw == AtStart => (Intersects(id, LSB, oid, OLSB) <=> (Contains(id, LSB, oid) \/ Contains(oid, OLSB, id)))
+SymmetricLaw == AtStart => (Intersects(id, LSB, oid, OLSB) <=> Intersects(oid, OLSB, id, LSB))
+AntisymLaw == AtStart => ((Contains(id, LSB, oid) /\ Contains(oid, OLSB, id)) => id = oid)
+OrderLaw == AtStart => ((id < oid /\ ~Intersects(id, LSB, oid, OLSB)) => RangeMax(id, LSB) < RangeMin(oid, OLSB))
+ContainsLaw == InclLaw /\ AncestorLaw /\ NestedLaw /\ SymmetricLaw /\ AntisymLaw /\ OrderLaw
+TwoLevelLaws == LevelUniqueLaw /\ ParentLaw /\ LevelRangeLaw /\ ContainsLaw
 =============================================================================
